@@ -811,6 +811,69 @@ def pure_mesh(ctx, T):
             llit([(src_quad[2 * n], src_quad[2 * n + 1]) for n in range(4)], lambda p: '(%s, %s)' % (qlit(p[0]), qlit(p[1]))), qlit(tol)), desc)
 
 
+class PolySRS(object):
+    """Stand-in SRS: transformation to the other SRS is p -> (x + s*a*y^3, y) (s = +1 / -1): non-linear, odd in y like
+    the mercator projection (no error at the centre of a quad that is symmetric about y = 0), exact inverse"""
+    def __init__(self, code, a, sign):
+        self.srs_code, self.a, self.sign = code, a, sign
+
+    def transform_to(self, other, p):
+        return (p[0] + self.sign * self.a * p[1] * p[1] * p[1], p[1])
+
+    def align_bbox(self, b):
+        return b
+
+    def __eq__(self, other):
+        return isinstance(other, PolySRS) and self.srs_code == other.srs_code
+
+    def __hash__(self):
+        return hash(self.srs_code)
+
+
+def pure_mesh_recursion(ctx, T):
+    """transform_meshes with a non-linear stand-in transformation (x + a*y^3, y): the recursion (is_good with its 50 px
+    floor and its check points, divide_quad) against the model transform_meshes; oracle: the quads partition the image"""
+    from mapproxy.image.transform import transform_meshes
+    rng = ctx.rng
+    for _ in range(ctx.n(16, 100)):
+        a = rng.choice([2.0 ** -18, 2.0 ** -19, 2.0 ** -20, 2.0 ** -21, 2.0 ** -24])
+        dst_srs = PolySRS('P:1', a, +1)     # T = dst -> src
+        src_srs = PolySRS('P:2', a, -1)
+        dw, dh = rng.choice([(400, 300), (256, 256), (600, 200), (120, 500), (99, 400), (800, 600)])
+        dres = rng.choice([1.0, 0.5, 2.0])
+        y0 = rng.choice([0.0, -float(dh) * dres / 2, 64.0, -float(dh) * dres])
+        x0 = dy(rng, -200, 200)
+        db = (x0, y0, x0 + dw * dres, y0 + dh * dres)
+        ymax = max(abs(db[1]), abs(db[3]))
+        sres = rng.choice([1.0, 0.5]) * dres
+        sx0 = math.floor(db[0] - 64)
+        sx0 = math.floor(db[0] - a * ymax ** 3 - 64)
+        sx1 = math.ceil(db[2] + a * ymax ** 3 + 64)
+        sw, sh = int((sx1 - sx0) / sres), int((dh * dres + 128) / sres)
+        sb = (float(sx0), db[1] - 64, float(sx0) + sw * sres, db[1] - 64 + sh * sres)
+        center = rng.choice([False, True])
+        st, meshes = call(lambda: transform_meshes((sw, sh), sb, src_srs, (dw, dh), db, dst_srs, max_px_err=1, use_center_px=center))
+        desc = {'a': a, 'src_bbox': sb, 'src_size': (sw, sh), 'dst_bbox': db, 'dst_size': (dw, dh), 'use_center_px': center,
+                'quads': [tuple(q) for q, _ in meshes][:40] if st == 'ok' else meshes}
+        ctx.case(('meshrec', a, sb, sw, sh, db, dw, dh, center), True, desc if len(ctx.samples) < 6 else None)
+        if st != 'ok':
+            ctx.fail('mesh-raises', 'transform_meshes raised %r' % (meshes,), desc)
+            continue
+        ctx.count('mesh_recursion:quads=%s' % ('1' if len(meshes) == 1 else '2-16' if len(meshes) <= 16 else '>16'))
+        # oracle: the quads partition the output image
+        area = sum((q[2] - q[0]) * (q[3] - q[1]) for q, _ in meshes)
+        if area != dw * dh or any(not (0 <= q[0] < q[2] <= dw and 0 <= q[1] < q[3] <= dh) for q, _ in meshes):
+            ctx.fail('mesh-not-partition', 'the mesh quads do not partition the %dx%d image' % (dw, dh), desc)
+            continue
+        if len(meshes) > 120:
+            continue
+        off = 0.5 if center else 0.0
+        tol = qtol(sw, sh)
+        obs = llit(meshes, lambda m: '(%s, %s)' % (z4(m[0]), llit([(m[1][2 * n], m[1][2 * n + 1]) for n in range(4)],
+                                                                   lambda p: '(%s, %s)' % (qlit(p[0]), qlit(p[1])))))
+        T.add('meshrec', '(%s, %s, %d, %d, %s, %d, %d, %s, %s, %s)' % (qlit(a), qbb(sb), sw, sh, qbb(db), dw, dh, qlit(off), obs, qlit(tol)), desc)
+
+
 MESH_SINGLE = 'mesh-single-quad-symmetric'
 MESH_FLOOR = 'mesh-50px-floor'
 
@@ -1075,7 +1138,7 @@ def run_pure(ctx, T):
              ('transform', lambda: pure_transform(ctx, T)), ('info', lambda: pure_info(ctx, T)), ('axis', lambda: pure_axis(ctx, T)),
              ('infopos', lambda: pure_info_pos(ctx, T)), ('client', lambda: pure_client(ctx, T)),
              ('srs', lambda: pure_srs(ctx, T)), ('mesh', lambda: pure_mesh(ctx, T)),
-             ('mesh_error', lambda: pure_mesh_error(ctx, T))]
+             ('mesh_error', lambda: pure_mesh_error(ctx, T)), ('mesh_recursion', lambda: pure_mesh_recursion(ctx, T))]
     for name, f in steps:
         try:
             f()
@@ -1100,6 +1163,12 @@ def correspond(ctx, T, grid_defs):
                    "let T := fun p : qpt => (ax * fst p + bx, ay * snd p + by_)%Q in "
                    "list_eqb (fun a b => qpt_close tol a b) (dst_quad_to_src T sb sw sh db dw dh off (0, 0, dw, dh)) obs",
                    lambda i: T.get('mesh')[1][i], defs=QDEFS)
+    ctx.corr_check('mesh_recursion', I, 'Q * qbbox * Z * Z * qbbox * Z * Z * Q * list (quad * list qpt) * Q', T.get('meshrec')[0],
+                   "fun c => let '(a, sb, sw, sh, db, dw, dh, off, obs, tol) := c in "
+                   "let T := fun p : qpt => (fst p + a * snd p * snd p * snd p, snd p)%Q in "
+                   "let Ti := fun p : qpt => (fst p - a * snd p * snd p * snd p, snd p)%Q in "
+                   "list_eqb (mesh_close tol) (transform_meshes T Ti sb sw sh db dw dh off 1) obs",
+                   lambda i: T.get('meshrec')[1][i], defs=QDEFS, shard=8)
     ctx.corr_check('featureinfo_position', I, 'wms_version * wms_version * bool * (Z * Z) * (Z * Z) * (Z * Z)', T.get('infopos')[0],
                    "fun c => let '(cv, uv, ne, wire, internal, up) := c in "
                    "zz_eqb (info_pos_to_111 cv ne wire) internal && zz_eqb (info_pos_to_version uv ne internal) up",
